@@ -98,7 +98,9 @@ class Ctx:
         self.pid, self.tier, self.seed = pid, tier, seed
         self.t0 = time.time()
         self.rng = random.Random(seed * 1000003 + int(hashlib.sha256(pid.encode()).hexdigest()[:8], 16))
-        self.work = os.path.join(VERIF, "work", pid)
+        # a run against a scratch copy of the repository (mutation testing) uses its own work directory, so that it can
+        # run next to a check of the same property against /repo
+        self.work = os.path.join(VERIF, "work", pid + ("_scratch" if REPO != "/repo" else ""))
         subprocess.run(["rm", "-rf", self.work])
         os.makedirs(self.work, exist_ok=True)
         self.violations = []      # dicts
